@@ -91,7 +91,43 @@ class _Normaliser(ast.NodeTransformer):
                 return value if node is uses[0] else node
         return Sub().visit(nxt)
 
+    @staticmethod
+    def _as_comprehension(init, loop):
+        """T = [] ; for tgt in it: [if c: ...] T.append(e)    ->   T = [e for tgt in it if c ...]   (else None)"""
+        if not (isinstance(init, ast.Assign) and len(init.targets) == 1 and isinstance(init.targets[0], ast.Name) and
+                isinstance(init.value, ast.List) and not init.value.elts and isinstance(loop, ast.For) and not loop.orelse):
+            return None
+        t = init.targets[0].id
+        body = loop.body
+        conds = []
+        while len(body) == 1 and isinstance(body[0], ast.If) and not body[0].orelse:
+            conds.append(body[0].test)
+            body = body[0].body
+        if not (len(body) == 1 and isinstance(body[0], ast.Expr) and isinstance(body[0].value, ast.Call)):
+            return None
+        c = body[0].value
+        if not (isinstance(c.func, ast.Attribute) and c.func.attr == "append" and isinstance(c.func.value, ast.Name) and c.func.value.id == t and
+                len(c.args) == 1 and not c.keywords):
+            return None
+        names = {n.id for n in ast.walk(loop.iter) if isinstance(n, ast.Name)} | {n.id for x in conds + [c.args[0]] for n in ast.walk(x) if isinstance(n, ast.Name)}
+        if t in names:
+            return None
+        comp = ast.ListComp(elt=c.args[0], generators=[ast.comprehension(target=loop.target, iter=loop.iter, ifs=conds, is_async=0)])
+        return ast.copy_location(ast.Assign(targets=[ast.Name(id=t, ctx=ast.Store())], value=ast.copy_location(comp, loop)), init)
+
     def _block(self, stmts):
+        # explicit accumulation loops become comprehensions (one shape for both spellings)
+        res = []
+        k = 0
+        while k < len(stmts):
+            r = self._as_comprehension(stmts[k], stmts[k + 1]) if k + 1 < len(stmts) else None
+            if r is not None:
+                res.append(r)
+                k += 2
+            else:
+                res.append(stmts[k])
+                k += 1
+        stmts = res
         out = []
         k = 0
         changed = True
